@@ -1,0 +1,47 @@
+//go:build verif
+
+// Contracts for the deductive verification in /verif (goverif). This file is
+// comment-only and guarded by the build tag "verif": with the tag off it is not
+// compiled, with the tag on it declares nothing. Lines starting with //@ are
+// read by /verif/engine; see /verif/DESIGN.md for the contract language.
+//
+// A clause tag [Cxx:name] assigns the clause to property Cxx of
+// /verif/properties.jsonl; untagged clauses are helper facts shared by all
+// properties that verify the function.
+
+package mail
+
+// ---------------------------------------------------------------------------
+// C09  EML parsing is total (panic-freedom of eml.go and what it calls)
+//
+//@ func mail.NewMsg
+//@   ensures[C09:nonnil] result != nil
+//@ func mail.Msg.newPart
+//@   ensures[C09:nonnil] result != nil
+//@ func mail.parseEML
+//@   requires[C09:nonnil] parsedMsg != nil && msg != nil
+//@ func mail.parseEMLHeaders
+//@   requires[C09:nonnil] mailHeader != nil && msg != nil
+//@ func mail.parseEMLEncoding
+//@   requires[C09:nonnil] mailHeader != nil && msg != nil
+//@ func mail.parseEMLContentTypeCharset
+//@   requires[C09:nonnil] mailHeader != nil && msg != nil
+//@ func mail.parseEMLBodyParts
+//@   requires[C09:nonnil] parsedMsg != nil && msg != nil
+//@ func mail.parseEMLBodyPlain
+//@   requires[C09:nonnil] parsedMsg != nil && msg != nil
+//@ func mail.parseEMLMultipart
+//@   requires[C09:nonnil] msg != nil
+//@   loop 2 invariant[C09:part] err == nil ==> multiPart != nil && partok(multiPart)
+//@ func mail.parseEMLAttachmentEmbed
+//@   requires[C09:args] len(contentDisposition) >= 1 && multiPart != nil && msg != nil
+//@ func mail.FileOption (f)
+//@   requires[C09:nonnil] f != nil
+//@ func mail.WithFileContentID$1
+//@   requires[C09:nonnil] f != nil
+//@ func mail.writeFuncFromBuffer$1
+//@   requires[C09:nonnil] w != nil
+//@ func mail.Msg.appendFile
+//@   requires[C09:nonnil] file != nil
+//@ func mail.fileFromReader
+//@   ensures[C09:nonnil] r1 == nil ==> r0 != nil
